@@ -18,6 +18,7 @@ import (
 	"fmt"
 	"reflect"
 	"runtime"
+	"runtime/debug"
 	"strconv"
 	"strings"
 	"sync"
@@ -193,7 +194,22 @@ type Result struct {
 // Run executes body as controlled goroutine 0 under the schedule given by
 // prefix (then default choices), and returns when every controlled goroutine
 // has finished, or the execution deadlocked / exceeded maxPoints.
+// runCount counts executions of this process (for the periodic collection below).
+var runCount int
+
 func Run(prefix []int, maxPoints int, body func()) *Result {
+	// The garbage collector is switched off for the duration of an execution: an *os.File that the code under
+	// test has leaked would otherwise be closed by its finalizer at a moment the scheduler does not control (a
+	// reader blocked on the leaked pipe then sees EOF in one replay and blocks forever in the next). Garbage is
+	// collected between executions, where finalizers can only close descriptors of executions that are over.
+	oldGC := debug.SetGCPercent(-1)
+	defer func() {
+		debug.SetGCPercent(oldGC)
+		runCount++
+		if runCount%32 == 0 {
+			runtime.GC()
+		}
+	}()
 	e := &Exec{prefix: prefix, MaxPts: maxPoints, chans: map[uintptr]*chanInfo{}, finished: make(chan struct{})}
 	if !current.CompareAndSwap(nil, e) {
 		panic("vsched: nested or concurrent Run")
